@@ -112,6 +112,7 @@ type World struct {
 	byHash map[string]int
 	byBody map[string]int
 	byMeta map[string]int
+	pinned map[int]bool
 	polSeq uint64
 	r      *vh.Rand
 
@@ -149,7 +150,7 @@ func NewWorld(r *vh.Rand, nkeys, nin, nkn int) *World {
 	w := &World{
 		Encs: sharedEncs, Enc: sharedEnc, priv: sharedPriv, addr: base.RandomAddress("local-"),
 		networkID: base.NetworkID([]byte("verif-c19")), nodes: sharedNode,
-		NKeys: nkeys, NIn: nin, NKn: nkn, byHash: map[string]int{}, byBody: map[string]int{}, byMeta: map[string]int{}, r: r, polSeq: 100,
+		NKeys: nkeys, NIn: nin, NKn: nkn, byHash: map[string]int{}, byBody: map[string]int{}, byMeta: map[string]int{}, pinned: map[int]bool{}, r: r, polSeq: 100,
 	}
 	for i := 0; i <= nin; i++ {
 		w.inPool = append(w.inPool, valuehash.NewSHA256(r.Bytes(32)))
@@ -178,9 +179,6 @@ func (w *World) register(kind, hash string, meta, body []byte) int {
 	id := len(w.Objs)
 	w.Objs = append(w.Objs, Obj{Kind: kind, Meta: meta, Body: body})
 	w.byHash[kind+":"+hash] = id
-	if len(body) > 0 {
-		w.byBody[kind+":"+string(body)] = id
-	}
 	if len(meta) > 0 {
 		if _, dup := w.byMeta[kind+":"+string(meta)]; !dup {
 			w.byMeta[kind+":"+string(meta)] = id
@@ -196,14 +194,6 @@ func (w *World) lookup(kind, hash string) int64 {
 	return ResGarbage
 }
 
-func (w *World) marshal(v interface{}) []byte {
-	b, err := w.Enc.Marshal(v)
-	if err != nil {
-		panic(err)
-	}
-	return b
-}
-
 func (w *World) hash() util.Hash { return valuehash.NewSHA256(w.r.Bytes(32)) }
 
 func (w *World) newState(h int64, key string, v base.StateValue, previous util.Hash, inops []int) (base.State, int) {
@@ -212,7 +202,7 @@ func (w *World) newState(h int64, key string, v base.StateValue, previous util.H
 		ops[i] = w.inPool[o]
 	}
 	st := base.NewBaseState(base.Height(h), key, v, previous, ops)
-	id := w.register("state", st.Hash().String(), st.Hash().Bytes(), w.marshal(st))
+	id := w.register("state", st.Hash().String(), st.Hash().Bytes(), nil)
 	return st, id
 }
 
@@ -299,7 +289,7 @@ func (w *World) NewBlock(s BlockShape) *Blk {
 		panic(err)
 	}
 	b.mp = m
-	b.MapID = w.register("map", manifest.Hash().String(), manifest.Hash().Bytes(), w.marshal(m))
+	b.MapID = w.register("map", manifest.Hash().String(), manifest.Hash().Bytes(), nil)
 	w.prevMapHash = manifest.Hash()
 	// suffrage proof
 	if s.Suf {
@@ -329,7 +319,7 @@ func (w *World) NewBlock(s BlockShape) *Blk {
 		if sufhash != nil {
 			meta = sufhash.Bytes()
 		}
-		b.Suf.ProofID = w.register("proof", proofKey(proof), meta, w.marshal(proof))
+		b.Suf.ProofID = w.register("proof", proofKey(proof), meta, nil)
 		w.prevSufState = sufst
 	}
 	for _, o := range s.Known {
@@ -349,23 +339,65 @@ const (
 func (w *World) ObjID(kind, hash string) int64 { return w.lookup(kind, hash) }
 
 // BytesRes maps an (enchint, meta, body) triple to id*4 + 2*meta_ok + body_ok.
+// JSON marshalling of block maps is not byte-deterministic (unsorted map keys), so the expected body is
+// not re-marshalled: the body must decode (with the real encoder) to the object with that identity, and
+// every later read of the same object must return byte-identical bytes (first-seen bytes are pinned).
+// meta must equal the header the object was stored with.
 func (w *World) BytesRes(kind string, enchint string, meta, body []byte) int64 {
 	if enchint != w.Enc.Hint().String() {
 		return ResGarbage
 	}
-	id, ok := w.byBody[kind+":"+string(body)]
-	if !ok || len(body) == 0 {
-		id, ok = w.byMeta[kind+":"+string(meta)]
+	id, bodyok := -1, false
+	if len(body) > 0 {
+		key := kind + ":" + string(body)
+		if i, ok := w.byBody[key]; ok {
+			id, bodyok = i, true
+		} else if i := w.decodeID(kind, body); i >= 0 {
+			id = int(i)
+			if _, pinned := w.pinned[id]; !pinned {
+				w.pinned[id] = true
+				w.byBody[key] = id
+				bodyok = true
+			}
+		}
+	}
+	if id < 0 {
+		i, ok := w.byMeta[kind+":"+string(meta)]
 		if !ok || len(meta) == 0 {
 			return ResGarbage
 		}
+		id = i
 	}
 	var fl int64
 	if bytes.Equal(w.Objs[id].Meta, meta) {
 		fl += 2
 	}
-	if bytes.Equal(w.Objs[id].Body, body) {
+	if bodyok {
 		fl++
 	}
 	return int64(id)*4 + fl
+}
+
+func (w *World) decodeID(kind string, body []byte) int64 {
+	switch kind {
+	case "map":
+		var m base.BlockMap
+		if err := encoder.Decode(w.Enc, body, &m); err != nil || m == nil {
+			return ResGarbage
+		}
+		return w.lookup("map", m.Manifest().Hash().String())
+	case "state":
+		var st base.State
+		if err := encoder.Decode(w.Enc, body, &st); err != nil || st == nil {
+			return ResGarbage
+		}
+		return w.lookup("state", st.Hash().String())
+	case "proof":
+		var p base.SuffrageProof
+		if err := encoder.Decode(w.Enc, body, &p); err != nil || p == nil {
+			return ResGarbage
+		}
+		return w.lookup("proof", proofKey(p))
+	}
+	return ResGarbage
 }
